@@ -302,7 +302,7 @@ func cmdCheck(args []string) {
 			}
 		}
 		if n > 0 && fg.c != nil && len(fg.c.Requires) > 0 {
-			fg.obls = append(fg.obls, &Obligation{Name: shortKey(fg.key) + "/cover.entry", Kind: "cover", Func: fg.key, Tags: []string{*prop}, Guard: "true", Goal: "false", Expect: "sat", Block: -2, Text: "requires clauses are satisfiable (vacuity guard)"})
+			fg.obls = append(fg.obls, &Obligation{Name: shortKey(fg.key) + "/cover.entry", Kind: "cover", Func: fg.key, Tags: []string{*prop}, Guard: "true", Goal: "false", Expect: "sat", Block: -2, Via: -1, Text: "requires clauses are satisfiable (vacuity guard)"})
 		}
 	}
 	results := Discharge(pre, fgs, filter, timeout, runtime.NumCPU(), *tier == "thorough")
